@@ -7,7 +7,7 @@ Abstract view, for a routing key k with short name n = '<topic>:<id>' and full n
   held     : n in ZSET  'processing'               (score = second at which it was taken)
   data     : HASH F with fields payload, parameters, (_reject_to while held)
 """
-from pyvc.spec import Raises
+from pyvc.spec import LoopInv, Raises
 
 B = "repid/connections/redis/message_broker.py::RedisMessageBroker."
 U = "repid/connections/redis/utils.py::"
@@ -167,3 +167,66 @@ _fin1 = finalize
 def finalize(db):  # noqa: F811
     _fin1(db)
     finalize_consumer(db)
+
+
+def fetch_setup(ip, args):
+    """startswith_topics is tuple(t + ':' for t in topics): the image of an arbitrary set of topic names"""
+    import ast as _ast
+    from pyvc.interp import Frame
+    from pyvc.loops import VMapped
+    share_connection(ip, args)
+    import z3
+    m = VMapped(args["startswith_topics"], "x", _ast.parse("x + ':'", mode="eval").body, Frame(None))
+    m.pred = z3.Function("name_of_my_topics", z3.StringSort(), z3.BoolSort())
+    args["startswith_topics"] = m
+
+
+def finalize_fetch(db):
+    K = "repid/connections/redis/consumer.py::_RedisConsumer."
+    c = db.contracts[K + "__fetch_message_name"]
+    c.assumed = False
+    c.note = ""
+    c.serves = ["C15", "C11", "C14"]
+    c.setup = fetch_setup
+    c.binds = {"full_queue_name": "str", "startswith_topics": "set[str]", "delayed": "bool", "force_delayed": "bool"}
+    db.define("tmatch(T, s)", "not nonempty(T) or s.startswith(T)")
+    L = "r_list(self.conn, full_queue_name)"
+    c.ensures = {
+        # C11: only names of this consumer's topics (prefix '<topic>:'), or any name when it serves all topics
+        "own_topics_only": "implies(result is not None, tmatch(startswith_topics, result))",
+        # C15: a normal queue is LPUSHed on enqueue and RPUSHed on return, so the list runs newest (head) -> oldest (tail);
+        # the consumer must take the matching name nearest the TAIL, whatever the queue length and window size
+        "oldest_matching_first": f"implies(result is not None and not delayed, exists_int(p, 0 <= p and p < len({L}) and seq_str({L}, p) == result"
+                                 f" and forall_int(q, implies(p < q and q < len({L}), not tmatch(startswith_topics, seq_str({L}, q)))),"
+                                 f" len({L}) + local('offset', 0) + len(local('names', ())) - 1 - local('__i1', 0) + ite(len({L}) + local('offset', 0) < 0, -(len({L}) + local('offset', 0)), 0)))",
+        # ... and it gives up only when nothing in the whole list matches (no waiting message is skipped for good)
+        "none_only_if_nothing_matches": f"implies(result is None and not delayed, forall_int(q, implies(0 <= q and q < len({L}),"
+                                        f" not tmatch(startswith_topics, seq_str({L}, q)))))",
+    }
+    c.covers = {"found_in_normal_list": "result is not None and not delayed",
+                "found_in_delayed_set": "result is not None and delayed", "nothing_found": "result is None",
+                "found_beyond_first_window": f"result is not None and not delayed and len({L}) > 25 and local('offset', 0) < -20"}
+    c.raises = []
+    c.modifies = []
+    c.loops = {
+        0: LoopInv(header="while len(names) > 0",
+                   invariant={"window_is_aligned": "implies(not delayed, offset <= 0)",
+                              "scanned_tail_has_no_match": f"implies(not delayed, forall_int(q, implies(0 <= q and len({L}) + offset <= q and q < len({L}),"
+                                                           f" not tmatch(startswith_topics, seq_str({L}, q)))))",
+                              "empty_window_means_done": f"implies(not delayed and len(names) == 0, len({L}) + offset <= 0)"},
+                   modifies={"names": "seq[bytes]", "offset": "int"}),
+        1: LoopInv(header=("for name in names if delayed else reversed(names)", "for name in names", "for name in reversed(names)"), ghost={"index": "__i1"},
+                   invariant={"no_match_nearer_the_tail": "implies(not delayed, forall_int(j, implies(len(names) - __i1 <= j and j < len(names),"
+                                                          " not tmatch(startswith_topics, seq_str(names, j)))))",
+                              "no_match_before": "implies(delayed, forall_int(j, implies(0 <= j and j < __i1,"
+                                                 " not tmatch(startswith_topics, seq_str(names, j)))))"},
+                   modifies={}),
+    }
+
+
+_fin2 = finalize
+
+
+def finalize(db):  # noqa: F811
+    _fin2(db)
+    finalize_fetch(db)
